@@ -56,6 +56,17 @@ def generate(rng, tier):
                 steps = ([{"items": [C.sl(1, None)] * nd}] if pre else []) + [{"items": item}]
                 yield {"shape": shape, "fam": "probe", "wseed": rng.randrange(10**6),
                        "ecs": [{"kind": kind, "axes": axes}] + ([{"kind": "time", "axes": [axes[0]]}] if pre else []), "steps": steps}
+    # systematic: a meshed SkyCoord table cut by ranges that do not start at 0, then indexed away altogether - by one
+    # item with integers on both of its axes, or one axis after the other (the dropped coordinate's value is the
+    # table's at start + integer on each axis)
+    for starts in ([1, 2], [2, 0], [0, 1], [1, 1]):
+        for ints in ([1, 0], [-1, 1], [0, -1]):
+            shape = [5, 5, 3]
+            it1 = [C.sl(starts[0], None), C.sl(starts[1], None), C.sl()]
+            base = {"shape": shape, "fam": "probe", "wseed": 1000 + 10 * starts[0] + starts[1],
+                    "ecs": [{"kind": "sky2mesh", "axes": [0, 1]}]}
+            yield {**base, "steps": [{"items": it1}, {"items": [ints[0], ints[1], C.sl()]}]}
+            yield {**base, "steps": [{"items": it1}, {"items": [ints[0], C.sl(), C.sl()]}, {"items": [ints[1], C.sl()]}]}
     for k in range(n):
         nd = rng.choice([1, 2, 2, 3, 3, 4])
         shape = [rng.randint(2, 5) for _ in range(nd)]
